@@ -5,7 +5,7 @@
 From Coq Require Import List QArith ZArith Bool.
 From PyrexLib Require Import Interp.
 From PyrexModel Require Import AntennaModel AntennaSpec.
-From PyrexProofs Require Import C09_struct C09_sum C09_sys C09_main.
+From PyrexProofs Require Import C09_struct C09_sum C09_sys C09_sysm C09_main.
 Import ListNotations.
 Open Scope Q_scope.
 
@@ -143,3 +143,42 @@ Theorem lead_in_covers : forall sc ts,
   (1 <= lead_in_n sc ts)%Z /\ lead_in sc < inject_Z (lead_in_n sc ts) * dt.
 Proof. exact lead_in_covers_lemma. Qed.
 Print Assumptions lead_in_covers.
+
+(* ---------------------------------------------------------------- antenna system, all histories
+   (noiseless antenna, linear front end, any lead-in time, repaired caching) *)
+
+(* one waveform per received signal on its grid; waveforms = filter of all_waveforms by the
+   trigger; is_hit iff non-empty; signals = front-end-processed antenna signals *)
+Theorem sys_bookkeeping : forall sc h,
+  noisy (ant_cfg sc) = false -> invalidate (ant_cfg sc) = true ->
+  let st := s_final sc s_init h in
+  let aw := snd (s_all_waveforms sc st) in
+  length aw = length (received h) /\ map s_times aw = map s_times (received h) /\
+  snd (s_waveforms sc st) = filter (trig (ant_cfg sc)) aw /\
+  (snd (s_is_hit sc st) = true <-> snd (s_waveforms sc st) <> []) /\
+  snd (s_signals sc st) = map (sys_signal_of sc) (received h).
+Proof. exact sys_bookkeeping_lemma. Qed.
+Print Assumptions sys_bookkeeping.
+
+Theorem sys_all_waveforms_are_sums : forall sc h,
+  noisy (ant_cfg sc) = false -> invalidate (ant_cfg sc) = true ->
+  Forall (fun s => wf_window (s_times s)) (received h) ->
+  Forall2 sig_eq (snd (s_all_waveforms sc (s_final sc s_init h)))
+    (map (fun s => mkSig (s_times s) (map (fun t => sum_at (received h) t * fe_scale sc) (s_times s)))
+         (received h)).
+Proof. exact sys_all_waveforms_are_sums_lemma. Qed.
+Print Assumptions sys_all_waveforms_are_sums.
+
+Theorem sys_history_independent : forall sc h q,
+  noisy (ant_cfg sc) = false -> invalidate (ant_cfg sc) = true -> is_query q = true ->
+  snd (s_step sc (s_final sc s_init h) q) = s_fresh_answer sc (received h) q.
+Proof. exact sys_history_independent_lemma. Qed.
+Print Assumptions sys_history_independent.
+
+Theorem sys_clear_resets : forall sc h r q,
+  noisy (ant_cfg sc) = false -> invalidate (ant_cfg sc) = true -> is_query q = true ->
+  let st := s_final sc s_init (h ++ [Clear r]) in
+  signals (ant st) = [] /\ sys_signals st = [] /\ sys_all_waves st = [] /\ sys_triggers st = [] /\
+  snd (s_step sc st q) = snd (s_step sc s_init q).
+Proof. exact sys_clear_resets_lemma. Qed.
+Print Assumptions sys_clear_resets.
